@@ -100,6 +100,10 @@ def handlePt (verb : String) (kv : List (String × String)) : String :=
   | "push" => match getNat kv "ndim", getBool kv "any", (get kv "ops").bind parseOps with
       | some nd, some any, some ops => joinWith "," ((partitionsPush nd any ops).map bool01)
       | _, _, _ => "BAD params"
+  | "guard" => match getBool kv "structural", getBool kv "numdep", getBool kv "filtered" with
+      | some st, some nd, some fl => (match partitionsRule st nd fl with
+          | .wrap => "wrap" | .absorb => "absorb" | .none => "none")
+      | _, _, _ => "BAD params"
   | "fromarray" => match getNat kv "len", getNat kv "cs", getNats kv "P" with
       | some len, some cs, some P =>
           "div=" ++ rInts (faDivisions len cs) ++ ";" ++
